@@ -10,16 +10,21 @@ def check(cls, k):
     lo, hi = grids.get(cls, (-2., 2.))
     pts = numpy.linspace(lo, hi, 41)
     worst = 0
+    args = [ev.Argument('a%d' % i, (), float) for i in range(nargs)]
+    # compile the node and its derivative rule once (one generated function each), then evaluate on the grid
+    fd_ = ev.compile(C.deriv[k](*args))
+    ff_ = ev.compile(C(*args))
+    d_of = lambda vs: float(fd_({'a%d' % i: numpy.array(v) for i, v in enumerate(vs)}))
+    f = lambda vs: float(ff_({'a%d' % i: numpy.array(v) for i, v in enumerate(vs)}))
     for x in pts:
         for y in (pts[::7] if nargs == 2 else [None]):
             vals = [x] if nargs == 1 else [x, y]
             if cls in ('Minimum', 'Maximum') and abs(x - y) < 1e-3:
                 continue
-            args = [ev.Argument('a%d' % i, (), float) for i in range(nargs)]
-            d = C.deriv[k](*args)
-            dv = float(ev.eval_once(d, arguments={'a%d' % i: numpy.array(v) for i, v in enumerate(vals)}))
+            if cls == 'ArcTan2' and y <= .05:  # the proved half plane (numpy.arctan2(x, y) with y > 0)
+                continue
+            dv = d_of(vals)
             h = 1e-6
-            f = lambda vs: float(ev.eval_once(C(*args), arguments={'a%d' % i: numpy.array(v) for i, v in enumerate(vs)}))
             vp, vm = list(vals), list(vals)
             vp[k] += h
             vm[k] -= h
